@@ -137,7 +137,7 @@ CLAIMED: dict[str, tuple[str, str, str, str]] = {
             "(each tree-sitter parse then takes about a second): the findings of its healthy part and of the healthy "
             "file linted after it must survive (AnalysisDropped).",
             "Fault enumeration, not exhaustive model checking of byte strings: concrete bytes are pseudo-random "
-            "(recorded in the replay); hang = no result within 120 s; wall-clock dependent faults (parser "
+            "(recorded in the replay); hang = no result within 300 s; wall-clock dependent faults (parser "
             "timeouts) are only reachable in the thorough tier's larger blow-ups.",
             "TLA+ fault-sequence enumeration + fault injection into thai-lint + TLC trace validation"),
     "C20": ("DESIGN.md §5 C20",
